@@ -532,6 +532,13 @@ func (w *World) CheckOrdering(o *Obs) []Violation {
 		seen := map[string]int{}
 		for _, l := range ls {
 			seen[l.ID]++
+			if pass == "first" {
+				for _, s := range w.P.Sources {
+					if s.ID == l.ID && s.Late {
+						vs = append(vs, v("C12", "loader-invoked-in-the-round-that-registered-it", l.ID, fmt.Sprintf("loader %s was registered while the configuration was being initialised (by %q) or after Run, yet it was invoked in the first initialisation: sequence %v", l.ID, s.SpawnedBy, ids(ls))))
+					}
+				}
+			}
 		}
 		for _, id := range sdl.SortedKeys(seen) {
 			if seen[id] > 1 {
